@@ -48,22 +48,37 @@ func c05spec(order []*linOp, in [2]bool) bool {
 
 func c05prefix(s *Set[int], u []int) [2]bool {
 	var in [2]bool
-	switch vChoose("prefix", 5) {
+	// promotion of the dirty map: by a Range (Len) or by a Load miss (Has of a dirty-only value)
+	promote := func() {
+		if vChoose("promoteBy", 2) == 0 {
+			s.Len()
+		} else {
+			s.Has(u[0])
+		}
+	}
+	switch vChoose("prefix", 6) {
+	case 5: // x expunged (deleted, then the dirty map re-created for y)
+		s.Add(u[0])
+		promote()
+		s.Remove(u[0])
+		s.Add(u[1])
+		in[1] = true
+		vCover("setconc prefix: expunged")
 	case 0:
 	case 1: // x present, only in the dirty map
 		s.Add(u[0])
 		in[0] = true
 	case 2: // x present, promoted
 		s.Add(u[0])
-		s.Len()
+		promote()
 		in[0] = true
 	case 3: // x removed (nil entry in the read map)
 		s.Add(u[0])
-		s.Len()
+		promote()
 		s.Remove(u[0])
 	case 4: // x promoted, y dirty-only
 		s.Add(u[0])
-		s.Len()
+		promote()
 		s.Add(u[1])
 		in[0], in[1] = true, true
 	}
